@@ -33,6 +33,14 @@ func scenarioC18(x *runner.X) {
 	desc := ""
 	for i := range jobs {
 		jobs[i] = c18job{ok: t.Bool(0.4), yields: t.Range(0, 3), sleep: t.Pick(0, 0, 1, 5), val: 100 + i, err: fmt.Errorf("job-%d-failed", i)}
+		switch t.Intn(8) {
+		case 0: // a job-local time-out (e.g. an HTTP client deadline) while the request context is alive
+			jobs[i].err = fmt.Errorf("job-%d-failed: %w", i, context.DeadlineExceeded)
+		case 1:
+			jobs[i].err = fmt.Errorf("job-%d-failed: %w", i, context.Canceled)
+		case 2:
+			jobs[i].err = ErrNotFound
+		}
 		if jobs[i].ok {
 			desc += "S"
 		} else {
